@@ -389,3 +389,181 @@ CLAIMS = [
           "one arbitrary loop step from arbitrary loop state (induction over any number of elements)", configs=("fast",),
           also=("C12",)),
 ]
+
+
+# ----------------------------------------------------------------------------- next_value vs next_datum lockstep (C10)
+
+def explore_top(cx, res, which):
+    from .c03 import sym_token
+    from .symex import ENUM_PAYLOADS
+    eng = C.make_engine(cx, [], loop_mode="cut", timeout_s=200, max_paths=20000)
+
+    def seq(st, kind):
+        n = st.notes.get("nseq", 0) + 1
+        st.notes["nseq"] = n
+        return "%s_%d" % (kind, n)
+
+    def h_ws(engine, st, fr, callee, argv, m):
+        nm = seq(st, "ws")
+        err, some, byte = z3.Bool(nm + "_err"), z3.Bool(nm + "_some"), z3.BitVec(nm + "_byte", 8)
+        st.events.append(("ws", nm, err, some, byte))
+        return S.mk_result(engine, err, S.mk_option(some, Int(byte, "u8")), Opaque("Error", "io", {"kind": "io"}))
+
+    def h_token(engine, st, fr, callee, argv, m):
+        nm = seq(st, "tok")
+        names = engine.enums["Token"]
+        d = z3.BitVec(nm + "_kind", 64)
+        c = z3.ULT(d, bv(len(names)))
+        engine.solver.add(c)
+        st.pc.append(c)
+        variants = {}
+        for i, n in enumerate(names):
+            tys = ENUM_PAYLOADS.get("Token", {}).get(n, [])
+            flds = []
+            for k, ty in enumerate(tys):
+                if ty.strip() == "u8":
+                    flds.append(Int(z3.BitVec("%s_%s_%d" % (nm, n, k), 8), "u8"))
+                elif ty.strip() == "bool":
+                    flds.append(BoolV(z3.Bool("%s_%s_%d" % (nm, n, k))))
+                elif ty.strip() == "char":
+                    flds.append(Int(z3.BitVec("%s_%s_%d" % (nm, n, k), 32), "char"))
+                else:
+                    flds.append(Blob("tok:" + n))
+            variants[i] = flds
+        err = z3.Bool(nm + "_err")
+        st.events.append(("token", nm, err, d, argv[1].e))
+        return S.mk_result(engine, err, EnumV("Token", d, variants), Opaque("Error", "from:parse_token", {"kind": "callee"}))
+
+    def mk(kind):
+        def h(engine, st, fr, callee, argv, m):
+            nm = seq(st, kind)
+            err = z3.Bool(nm + "_err")
+            f = C.resolve_callee(cx, callee)
+            ret = f.ret_ty if f else ""
+            dep = K.depth_of(cx, st).e
+            args = [a.e for a in argv[1:] if isinstance(a, Int)]
+            st.events.append((kind, nm, err, dep, args))
+            if kind == "recurse":
+                some = z3.Bool(nm + "_some")
+                st.events[-1] = (kind, nm, err, dep, args, some)
+                okv = S.mk_option(some, Blob("inner"))
+            elif kind == "list" and "Option<" in ret:
+                some = z3.Bool(nm + "_nonempty")
+                okv = S.mk_option(some, Blob("list"))
+            elif "Result<()" in ret:
+                okv = UnitV()
+            else:
+                okv = Blob("ret:" + kind)
+            return S.mk_result(engine, err, okv, Opaque("Error", "from:" + kind, {"kind": "callee"}))
+        return h
+
+    def h_peek_error(engine, st, fr, callee, argv, m):
+        st.events.append(("error", argv[1]))
+        return Opaque("Error", "syntax", {"kind": "syntax", "code": argv[1]})
+
+    def h_position(engine, st, fr, callee, argv, m):
+        return Agg("struct", "Position", [engine.sym_int("usize", "line"), engine.sym_int("usize", "col")])
+    P = r"^Parser::<[^>]*>::"
+    eng.stubs = [
+        (re.compile(P + r"parse_whitespace$"), h_ws),
+        (re.compile(P + r"parse_token$"), h_token),
+        (re.compile(P + r"(?:parse_vector|parse_vector_meta)$"), mk("vector")),
+        (re.compile(P + r"(?:parse_list|parse_list_meta)$"), mk("list")),
+        (re.compile(P + r"end_seq$"), mk("end_seq")),
+        (re.compile(P + r"parse_byte_list$"), mk("bytes")),
+        (re.compile(P + r"(?:next_value|next_datum)$"), mk("recurse")),
+        (re.compile(P + r"(?:peek_error|error)$"), h_peek_error),
+        (re.compile(r"^<R as (?:parse::)?(?:read::)?Read<'\w+>>::(position|peek_position)$"), h_position),
+    ] + S.COMBINATOR_STUBS + S.BUILDER_STUBS + S.CORE_STUBS
+    fn = C.resolve_callee(cx, "Parser::<R>::" + which)
+    info = {}
+
+    def init(e, st, fr):
+        ref, cons, ov = K.parser_state(cx, e, st)
+        fr.locals[1] = ref
+        # same symbolic depth in both runs
+        d = z3.BitVec("depth_shared", 8)
+        info["d0"] = d
+        return cons + [ov["remaining_depth"] == d, z3.UGE(d, z3.BitVecVal(1, 8))]
+    terms = eng.explore(fn.name, init)
+    res.absorb(eng)
+    return eng, info, terms
+
+
+def top_key(ev):
+    k = ev[0]
+    if k == "ws":
+        return ("ws", [ev[2], ev[3], ev[4]])
+    if k == "token":
+        return ("token", [ev[2], ev[3], ev[4]])
+    if k in ("vector", "list", "end_seq", "bytes"):
+        return (k, [ev[2], ev[3]] + list(ev[4]))
+    if k == "recurse":
+        return (k, [ev[2], ev[3], ev[5]])
+    if k == "error":
+        c = ev[1]
+        return ("error:%s" % (K.concrete(c.discr) if isinstance(c, EnumV) else "?"), [])
+    return (k, [])
+
+
+def top_outcome(eng, t):
+    if t.kind != "RETURN":
+        return (t.kind,)
+    kind, payload = K.classify_return(eng, t)
+    if kind == "err":
+        ci = K.err_code_index(eng, payload)
+        return ("err", K.code_name(eng, ci) if ci is not None else (payload.label if isinstance(payload, Opaque) else "?"))
+    if kind == "ok" and isinstance(payload, EnumV):
+        return ("ok", "some" if K.concrete(payload.discr) == 1 else "none")
+    return (kind,)
+
+
+def claim_lockstep_top(cx, res, kf):
+    ea, ia, ta = explore_top(cx, res, "next_value")
+    eb, ib, tb = explore_top(cx, res, "next_datum")
+
+    def onm(m):
+        for text in (b"a b", b"(a . b ) c", b"'x", b"#u8(1 2) y", b"#(a) b", b"[a]", b")", b"(a", b"'", b"#(", b"1 (2 3) \"s\" #\\c ;x\n z",
+                     b"`(,a ,@b)", b"(" * 130, b"#nil ()", b""):
+            v = RP.parse(text, "default", "slice", "value")
+            d = RP.parse(text, "default", "slice", "datum")
+            res.replays += 2
+            if v != d:
+                return {"replayed": True, "observed": {"value": v, "datum": d},
+                        "witness": {"kind": "parse", "input_hex": text.hex(), "opts": "default", "src": "slice", "api": "datum", "fast": True}}
+        return {"replayed": False}
+    pairs = 0
+    for x in ta:
+        if x.kind in ("PANIC", "UNREACHABLE"):
+            continue
+        for y in tb:
+            if y.kind in ("PANIC", "UNREACHABLE"):
+                continue
+            conj = list(x.state.pc) + list(y.state.pc)
+            r, _ = res.solve(conj)
+            if r != z3.sat:
+                continue
+            pairs += 1
+            ka = [top_key(e) for e in x.state.events if e[0] != "build"]
+            kb = [top_key(e) for e in y.state.events if e[0] != "build"]
+            oa, ob = top_outcome(ea, x), top_outcome(eb, y)
+            da, db = K.depth_of(cx, x.state).e, K.depth_of(cx, y.state).e
+            if [k for k, _ in ka] != [k for k, _ in kb] or oa != ob:
+                res.must_be_unsat(conj, "next_value vs next_datum: for the same trivia / token / callee behaviour the two readers take "
+                                  "different steps (%r -> %r  vs  %r -> %r)" % ([k for k, _ in ka], oa, [k for k, _ in kb], ob), onm)
+                continue
+            diffs = [da != db]
+            for (k1, a1), (k2, a2) in zip(ka, kb):
+                for u, v in zip(a1, a2):
+                    diffs.append(u != v)
+            res.must_be_unsat(conj + [z3.Or(*diffs)], "next_value vs next_datum: same steps but different arguments / depth budget", onm)
+    res.vacuity.append(("next_value/next_datum comparable path pairs", pairs >= 20))
+
+
+CLAIMS += [
+    Claim("c10_top_lockstep", "C10", "quick", claim_lockstep_top,
+          "for every remaining depth, trivia result, token kind and callee behaviour next_datum takes exactly the steps of "
+          "next_value: same trivia skip, same token, same builder / byte-list / recursive call with the same closer and at "
+          "the same depth, same end-of-sequence check, same error code, same Some/None outcome, same depth budget afterwards",
+          "all 13 token kinds, arbitrary callee results and depth", configs=("fast",), also=("C12",)),
+]
